@@ -1102,7 +1102,8 @@ func (mgr *Manager) DelTag(name string) error {
 			}
 			// remove converter results of attached converters from cache
 			if len(tag.converters) > 0 {
-				for _, converter := range tag.converters {
+				// detaching shifts the remaining converters in the list: iterate over a copy
+				for _, converter := range slices.Clone(tag.converters) {
 					if err := mgr.detachConverterFromTag(tag, name, converter); err != nil {
 						return err
 					}
@@ -1313,7 +1314,8 @@ func (mgr *Manager) UpdateTag(name string, operation UpdateTagOperation) error {
 					}
 				}
 				// detach deselected converters from tag
-				for _, converter := range tag.converters {
+				// (detaching shifts the remaining converters in the list: iterate over a copy)
+				for _, converter := range slices.Clone(tag.converters) {
 					if slices.Contains(info.setConverterNames, converter.Name()) {
 						continue
 					}
